@@ -53,6 +53,10 @@ def one_case(arg):
                     blobs = [e.child for e in v.tree.entries if e.kind in (G.FILE, G.EXEC)]
                     if blobs:
                         m.refs["refs/replace/" + blobs[0].oid] = pool.new_blob(50000)
+        explicit_cfg = kind in ("replace", "both") and rng.random() < 0.5
+        if explicit_cfg:
+            # the default spelled out in the repository's configuration
+            m.config = (m.config or "") + "[core]\n\tuseReplaceRefs = true\n"
         work = os.path.join(d, "repo")
         gitdir = G.write_model(m, work)
         if kind in ("graft", "both") and len(m.commits) >= 2:
@@ -171,6 +175,8 @@ def one_case(arg):
                 bad = O.compare_numeric(ex, js, [k for k in O.CAPS if k != "reference_count"])
                 if bad:
                     which = ("replace" if kind in ("replace", "both") else "") + ("graft" if kind in ("graft", "both") else "")
+                    if explicit_cfg:
+                        which += "/core.useReplaceRefs=true-in-config"
                     out["viol"].append(("C13/stored-graph/values-differ-from-stored-objects/" + (which or "plain"),
                                         {"repo": [seed, idx], "kind": kind, "diffs": bad[:5]}))
                 out["sample"] = {"modes": sorted(outs), "kind": kind, "unique_commit_count": js.get("unique_commit_count"),
@@ -209,7 +215,8 @@ def one_case(arg):
                     exr = O.compute([obj])
                     bad = O.compare_numeric(exr, jr or {}, [k for k in O.CAPS if k != "reference_count"])
                     if bad:
-                        out["viol"].append(("C13/stored-graph/root-through-replaced-object/values-differ", {"root": sp, "kind": kind, "diffs": bad[:4]}))
+                        out["viol"].append(("C13/stored-graph/root-through-replaced-object/values-differ" + ("/core.useReplaceRefs=true-in-config" if explicit_cfg else ""),
+                                            {"root": sp, "kind": kind, "diffs": bad[:4]}))
                     out["root_through"] = out.get("root_through", 0) + 1
         # --- shallow
         if idx % 4 == 0 and len(m.commits) >= 2:
